@@ -39,19 +39,32 @@ MODELLED_SITES = {
     (_O, _AF, "input_transposes", "for"): ("S3", "site_collect_remove_order_irrelevant", "proved"),
     (_O, _TP, "to_remove", "list"): ("S4", "remove_list_of_set_order_irrelevant", "proved"),
     (_O, _TP, "transpose_nodes", "for"): ("S5/S7/S11", "site_perm_agree / site_build_map / site_remove_unused _order_irrelevant", "proved"),
-    (_O, _TP, "elem_nodes", "for"): ("S6/S8/S12", "site_check_collect (proved) / site_refresh (REFUTED at :1546) / site_rewire (proved)", "refuted"),
+    (_O, _TP, "elem_nodes", "for"): ("S6/S8'/S12", "site_check_collect / site_rewire_map (+ site_refresh_graph_order: refresh in graph order, "
+                                     "set used for membership) / site_rewire _order_irrelevant", "proved"),
     (_O, _TP, "output_transposes", "for"): ("S9", "site_rauw_order_irrelevant", "proved"),
     (_O, _TP, "output_transposes", "list"): ("S10", "remove_list_of_set_order_irrelevant", "proved"),
     (_O, _DR, "del_not_nodes", "for"): ("S13", "site_collect_remove_order_irrelevant", "proved"),
-    ("plugin_system.py", "FunctionPlugin._lower_and_call", "call_param_names", "for"): ("S14", "site_append (REFUTED)", "refuted"),
+    ("plugin_system.py", "FunctionPlugin._lower_and_call", "call_param_names", "sorted"): ("S14'", "sorted_canonical / site_append_sorted_strings_order_irrelevant", "proved"),
     ("function_scope.py", "FunctionRegistry.all", "self._defs", "list.values"): ("S15", "insertion-ordered dict", "ordered"),
 }
 # number of `for` loops per (function, variable) the models were written for (a further loop over the same
 # variable is a new site as well)
 MODELLED_LOOP_COUNTS = {(_O, _AF, "output_transposes", "for"): 1, (_O, _AF, "input_transposes", "for"): 1,
                         (_O, _TP, "transpose_nodes", "for"): 3, (_O, _TP, "elem_nodes", "for"): 4,
-                        (_O, _TP, "output_transposes", "for"): 1, (_O, _DR, "del_not_nodes", "for"): 1,
-                        ("plugin_system.py", "FunctionPlugin._lower_and_call", "call_param_names", "for"): 1}
+                        (_O, _TP, "output_transposes", "for"): 1, (_O, _DR, "del_not_nodes", "for"): 1}
+# what the bodies of the loops over each set may call (the per-element actions the models were written from);
+# any other call inside such a loop - e.g. a shape refresh in set order, the defect fixed in /repo 77c9ea7 -
+# is an unmodelled action
+MODELLED_LOOP_CALLS = {
+    (_O, _AF, "output_transposes"): {"_node_output", "_first_input", "isinstance", "replace_all_uses_with"},
+    (_O, _AF, "input_transposes"): {"_node_output", "append", "_consumer_nodes", "is_graph_output", "_nested_graph_references_value"},
+    (_O, _TP, "transpose_nodes"): {"_transpose_perm", "_node_output", "_first_input", "isinstance", "_consumer_nodes",
+                                   "_value_is_observed", "remove"},
+    (_O, _TP, "elem_nodes"): {"_node_output", "_value_is_observed", "_consumer_nodes", "_transpose_perm", "add",
+                              "_node_inputs", "enumerate", "replace_input_with"},
+    (_O, _TP, "output_transposes"): {"_node_output", "_first_input", "isinstance", "replace_all_uses_with"},
+    (_O, _DR, "del_not_nodes"): {"_node_outputs", "uses", "is_graph_output", "append"},
+}
 SCAN_FILES = ["converter/*.py", "plugins/plugin_system.py", "user_interface.py"]
 
 SEEDS_FIXED = [0, 1, 2, 3, 12345, 2 ** 32 - 1]
@@ -562,6 +575,9 @@ def name_of(n):
     if isinstance(n, ast.Attribute) and isinstance(n.value, ast.Name) and n.value.id == "self": return "self." + n.attr
     return None
 
+LOOP_CALLS = {}     # (file, function, variable) -> names called in the bodies of the `for` loops over that set
+
+
 def scan_file(path):
     tree = ast.parse(open(path).read())
     rets = {}
@@ -637,11 +653,24 @@ def scan_file(path):
             return nm, None
         for node in nodes:
             its = []
-            if isinstance(node, (ast.For, ast.AsyncFor)): its.append(("for", node.iter, node.lineno))
+            if isinstance(node, (ast.For, ast.AsyncFor)):
+                its.append(("for", node.iter, node.lineno))
+                nm0, k0 = kind_of(node.iter)
+                if k0 == "set":
+                    calls = set()
+                    for st in node.body:
+                        for x in ast.walk(st):
+                            if isinstance(x, ast.Call):
+                                calls.add(x.func.id if isinstance(x.func, ast.Name) else
+                                          (x.func.attr if isinstance(x.func, ast.Attribute) else "<expr>"))
+                    LOOP_CALLS.setdefault((os.path.basename(path), fname, nm0), set()).update(calls)
             if isinstance(node, (ast.ListComp, ast.SetComp, ast.DictComp, ast.GeneratorExp)):
                 for g in node.generators: its.append(("comp", g.iter, node.lineno))
-            if isinstance(node, ast.Call) and isinstance(node.func, ast.Name) and node.func.id in ("list", "tuple", "iter", "enumerate", "zip", "next", "reversed") :
-                for a in node.args: its.append((node.func.id, a, node.lineno))
+            if isinstance(node, ast.Call) and isinstance(node.func, ast.Name) and node.func.id in ("list", "tuple", "iter", "enumerate", "zip", "next", "reversed", "sorted"):
+                how0 = node.func.id
+                if how0 == "sorted" and any(kw.arg == "key" for kw in node.keywords):
+                    how0 = "sorted-key"          # stable sort: ties keep the set's order
+                for a in node.args: its.append((how0, a, node.lineno))
             if isinstance(node, ast.Call) and isinstance(node.func, ast.Attribute) and node.func.attr == "pop" and not node.args:
                 its.append(("pop", node.func.value, node.lineno))
             if isinstance(node, ast.Call) and isinstance(node.func, ast.Attribute) and node.func.attr == "join":
@@ -661,6 +690,7 @@ def scan_file(path):
 def scan_sites():
     """[(file, function, variable, how, line, kind)] over SCAN_FILES of the working tree"""
     out = []
+    LOOP_CALLS.clear()
     for pat in SCAN_FILES:
         for path in sorted(glob.glob(os.path.join(REPO, "jax2onnx", pat))):
             for (fn, var, how, ln, kind) in scan_file(path):
@@ -942,7 +972,12 @@ def run(ctx):
     for (f, fn, var, how, ln, kind) in found:
         counts[(f, fn, var, how)] = counts.get((f, fn, var, how), 0) + 1
     unmodelled = []
+    n_sorted = 0
     for k, n in sorted(counts.items()):
+        if k[3] == "sorted":
+            # sorted(<set>) without key: the canonical list of C14_sorted_canonical, whatever the set's order
+            n_sorted += n
+            continue
         if k not in MODELLED_SITES:
             unmodelled.append(k)
             ctx.oblige(f"unmodelled set iteration: {k[0]}:{k[1]}:{k[2]} ({k[3]})", False, "tie",
@@ -951,9 +986,16 @@ def run(ctx):
             unmodelled.append(k)
             ctx.oblige(f"unmodelled set iteration: {k[0]}:{k[1]}:{k[2]} ({n} loops, {MODELLED_LOOP_COUNTS[k]} modelled)", False, "tie",
                        f"lines {[x[4] for x in found if x[:4] == k]}")
+    extra_calls = {}
+    for k, calls in sorted(LOOP_CALLS.items()):
+        extra = sorted(calls - MODELLED_LOOP_CALLS.get(k, set())) if k in MODELLED_LOOP_CALLS else []
+        if extra:
+            extra_calls[":".join(k)] = extra
+    ctx.oblige("tie:set-loop-bodies-perform-only-modelled-actions", not extra_calls, "tie",
+               "" if not extra_calls else f"calls inside a loop over a set that the model of that loop does not cover: {extra_calls}")
     gone = [k for k in MODELLED_SITES if k not in counts]
-    ctx.oblige(f"tie:ast-set-iteration-sites-all-modelled({len(counts)} sites, {len(found)} loops/calls)", not unmodelled, "tie",
-               "" if not unmodelled else f"new: {unmodelled}")
+    ctx.oblige(f"tie:ast-set-iteration-sites-all-modelled({len(counts)} sites, {len(found)} loops/calls, {n_sorted} of them sorted(<set>))",
+               not unmodelled, "tie", "" if not unmodelled else f"new: {unmodelled}")
     ctx.oblige("tie:modelled-sites-exist-in-source", not gone, "tie", "" if not gone else f"modelled but not found: {gone}")
     line2site = {(f[:-3] + ":" + fn.split(".")[-1], ln): (f, fn, var, how) for (f, fn, var, how, ln, kind) in found}
 
@@ -1109,7 +1151,8 @@ def run(ctx):
 
     n_err = sum(1 for v in base.values() if v.startswith("error:"))
     ctx.coverage.update({
-        "level_detail": "proof, partial: 13 site/name/cache theorems proved, 2 site theorems refuted (S8, S14) with partial versions; "
+        "level_detail": "proof, partial: every set-iteration site of the current source (after /repo 77c9ea7) has a proved order-irrelevance "
+                        "theorem; the two shapes that code had before (S8, S14) stay refuted with partial versions as documentation; "
                         "seeds/histories/import orders/set orders explored on the real code",
         "requests": len(reqs), "request_list": reqs, "requests_failing_deterministically": n_err,
         "failing_requests": {k: v for k, v in base.items() if v.startswith("error:")},
